@@ -22,7 +22,7 @@ import zipfile
 
 from vimpl_common import setup, exc_name
 
-WAIT = float(os.environ.get("C15_WAIT", "30"))
+WAIT = float(os.environ.get("C15_WAIT", "20"))
 CASE_LIMIT = int(os.environ.get("C15_CASE_LIMIT", "240"))
 
 
@@ -398,7 +398,12 @@ def run_case(c, idx):
         except (TypeError, AttributeError) as e:
             return {"struct": {"kind": "error", "exc": exc_name(e), "items": []}, "classes": [], "count": 0,
                     "outs": [], "residue": []}
-        desc = describe(comb)
+        try:
+            desc = describe(comb)
+        except AttributeError:
+            # __new__ answered FreeParameterAnalysis(...) with an object whose __init__ never ran
+            return {"struct": {"kind": "error", "exc": "uninitialised", "items": []}, "classes": [], "count": 0,
+                    "outs": [], "residue": []}
         if kind == "struct":
             return {"struct": desc}
         if kind == "hist":
